@@ -83,6 +83,9 @@ def _case(draw):
         if draw(st.booleans()):
             drop[str(i)] = draw(st.lists(st.integers(1, len(kerning) - 1), min_size=1, max_size=2, unique=True)) if len(kerning) > 1 else []
     drop = {k: v for k, v in drop.items() if v}
+    if len(masters) >= 2 and F.chance(draw, 1, 5):
+        # one non-default master without any kerning: every pair is an implicit 0 there
+        drop[str(draw(st.integers(1, len(masters) - 1)))] = list(range(len(kerning)))
     if drop:
         fam["drop_kerning"] = drop
     if shape in ("two", "three") and draw(st.sampled_from([True, False, False])):
@@ -236,8 +239,14 @@ def run_case(case, ctx):
                     del lay[tag]
             inst = instantiateVariableFont(lay, uloc)
             sp = specs[i]
+            kf1 = not varfea and not sp["kerning"] and any(x["kerning"] for x in specs) and not case.get("no_exclusions")
+            if kf1:
+                # KF-C10-1: per-master layout, this master has no kerning at all -> no kern lookups (or no GPOS) in its binary, which the merger reads as "no data", not as zeros
+                ctx.label("known-finding-class(KF-C10-1)")
             for g1 in lat:
                 for g2 in lat:
+                    if kf1:
+                        break
                     exp = R.ot_round(ufo_kern(sp, g1, g2))
                     (xp, yp, xa, ya), n_, sec = otl.eval_pair(inst, g1, g2, "latn")
                     if abs(xa - exp) > kern_tol:
@@ -263,6 +272,8 @@ def run_case(case, ctx):
         ctx.label("intermediate-master")
     if fam.get("sparse"):
         ctx.label("sparse-master")
+    if any(len(v) == len(fam["base"]["kerning"]) for v in (fam.get("drop_kerning") or {}).values()):
+        ctx.label("master-without-any-kerning")
     if fam.get("drop_kerning"):
         ctx.label("kerning-pair-missing-in-a-master")
     if fam["tweaks"]:
